@@ -73,6 +73,7 @@ type treeOpts struct {
 	maxDepth, maxFan int
 	hostile          bool
 	allowEmptyDir    bool
+	keyNames         bool // entries named like the JSON keys of the manifest schemas
 }
 
 func genTree(r *rng, depth int, to treeOpts, pool *[][]byte, s *summary) *Node {
@@ -96,6 +97,14 @@ func genTree(r *rng, depth int, to treeOpts, pool *[][]byte, s *summary) *Node {
 			n.Ents = append(n.Ents, Ent{name, sub})
 		} else {
 			n.Ents = append(n.Ents, Ent{name, nFile(genContent(r, pool))})
+		}
+	}
+	if to.keyNames && depth <= 1 && r.chance(1, 2) {
+		// names a decoder could mistake for its own keys, as directories and as files
+		n.set("path", nDir(Ent{"contents", nFile(genContent(r, pool))}, Ent{"is-dir", nDir(Ent{"checksum", nFile(genContent(r, pool))})}))
+		n.set([]string{"Path", "IsDir", "checksum", "skip-cache"}[r.intn(4)], nFile(genContent(r, pool)))
+		if s != nil {
+			s.count("name:json-key")
 		}
 	}
 	n.sortEnts()
